@@ -318,7 +318,7 @@ func (c *vCPWorlds) get(kind string) *vWorld {
 		o.SSHExt = []sshExtension{{Key: "login@example.com", Value: "$USERNAME"}, {Key: "role-$USERNAME", Value: "u=${USERNAME};fixed"}}
 	}
 	w := newWorld(o)
-	w.st.Config.Base.AutomationUsers = []string{"svc"}
+	w.st.Config.Base.AutomationUsers = []string{"svc", "Svc-Bot.CI"}
 	c.m[kind] = w
 	return w
 }
